@@ -6,6 +6,7 @@ import (
 	"strconv"
 
 	"github.com/graphql-go/graphql/language/ast"
+	"github.com/graphql-go/graphql/language/printer"
 )
 
 // normalizeDocument walks the given operation in `doc`, replacing
@@ -361,6 +362,11 @@ type normCtx struct {
 	counter    int
 	synthArgs  map[string]interface{}
 	newVarDefs []*ast.VariableDefinition
+	// byLiteral maps "type|literal" to the synthetic variable already created
+	// for that literal: equal literals of one type share a variable, so that
+	// repeated selections of a field with identical arguments stay identical
+	// (two different variables would make them conflict in validation).
+	byLiteral map[string]string
 }
 
 func (c *normCtx) nextName() string {
@@ -477,7 +483,15 @@ func (c *normCtx) tryExtract(value ast.Value, expected Input) (ast.Value, bool) 
 	if external == nil {
 		return value, false
 	}
+	literalKey := fmt.Sprintf("%v|%v", expected, printer.Print(value))
+	if name, ok := c.byLiteral[literalKey]; ok {
+		return ast.NewVariable(&ast.Variable{Name: ast.NewName(&ast.Name{Value: name})}), true
+	}
 	name := c.nextName()
+	if c.byLiteral == nil {
+		c.byLiteral = map[string]string{}
+	}
+	c.byLiteral[literalKey] = name
 	c.synthArgs[name] = external
 	c.newVarDefs = append(c.newVarDefs, ast.NewVariableDefinition(&ast.VariableDefinition{
 		Variable: ast.NewVariable(&ast.Variable{Name: ast.NewName(&ast.Name{Value: name})}),
